@@ -312,6 +312,9 @@ def _collect_comment_trivia(
 
     selected = list(selected)
     prev = start
+    # A comment shares the line of the code before it only through an unbroken
+    # run of comments on that line; one that follows an own-line comment does not.
+    prev_on_code_line = True
     collected: list[Any] = []
     for comment_node in selected:
         append_gap_between_offsets(
@@ -322,9 +325,14 @@ def _collect_comment_trivia(
             include_linebreak=include_linebreak,
         )
         comment_expr = Comment.from_cst(comment_node)
-        if allow_inline and comment_node.start_point.row == prev.end_point.row:
+        if (
+            allow_inline
+            and prev_on_code_line
+            and comment_node.start_point.row == prev.end_point.row
+        ):
             if not inline_requires_gap or comment_node.start_byte > prev.end_byte:
                 comment_expr.inline = True
+        prev_on_code_line = comment_expr.inline
         collected.append(comment_expr)
         prev = comment_node
     if (
@@ -500,18 +508,23 @@ def parse_delimited_sequence(
                 before.append(empty_line)
 
     prev_content: Node | None = None
+    after_own_line_comment = False
     for child in content_nodes:
         if child.type == "comment":
-            if can_inline_comment(prev_content, child, items):
+            if not after_own_line_comment and can_inline_comment(
+                prev_content, child, items
+            ):
                 push_gap(prev_content, child)
                 comment_expr = Comment.from_cst(child)
                 comment_expr.inline = True
                 attach_inline_comment(items[-1], comment_expr)
             else:
                 append_comment_between(before, parent, prev_content, child)
+                after_own_line_comment = True
             prev_content = child
             continue
 
+        after_own_line_comment = False
         push_gap(prev_content, child)
         item = parse_item(child, before)
         if item is not None:
